@@ -40,6 +40,9 @@ CHECKS = {
    note="Maximum instruction length is an over-approximation (16 bytes, unbounded for java/webasm/dotnet); tms1000/tms1100 range output is only checked for termination; range ends near 2^32 not explored."),
 }
 
+# checks that exist but are not claimed yet (reason shown in not_applicable)
+HOLD = {"C07": "check exists (vf/checks/c07.py) but its catalogue of violations present in the unchanged tree is not complete yet, so it is not claimed"}
+
 PENDING_REASON = "check not built yet in this round of work; design exists in DESIGN.md section 3"
 
 def main():
@@ -47,6 +50,9 @@ def main():
     for p in props:
         pid = p["id"]
         c = CHECKS.get(pid)
+        if pid in HOLD:
+            na.append({"property_id": pid, "reason": HOLD[pid]})
+            continue
         if c is None:
             na.append({"property_id": pid, "reason": PENDING_REASON})
             continue
@@ -73,11 +79,11 @@ def main():
         },
         "engines": [
             {"name": "vdrv", "path": "harness/vdrv.cpp", "kind_free_text": "in-process driver linked against the ASan/UBSan build of the library; one request per case, crash attribution",
-             "serves_properties": sorted(k for k, v in CHECKS.items() if "vdrv" in v["engine"])},
+             "serves_properties": sorted(k for k, v in CHECKS.items() if "vdrv" in v["engine"] and k not in HOLD)},
             {"name": "cli", "path": "vf/proc.py", "kind_free_text": "real naken_asm / naken_util sanitizer binaries, one case per process under CPU/RSS/file-size limits",
-             "serves_properties": sorted(k for k, v in CHECKS.items() if "cli" in v["engine"])},
+             "serves_properties": sorted(k for k, v in CHECKS.items() if "cli" in v["engine"] and k not in HOLD)},
             {"name": "ref", "path": "vf/ref", "kind_free_text": "reference models and format decoders written from the documentation/specifications",
-             "serves_properties": sorted(CHECKS)},
+             "serves_properties": sorted(k for k in CHECKS if k not in HOLD)},
         ],
         "checks": checks,
         "not_applicable": na,
